@@ -430,6 +430,12 @@ func (e *Env) evalAddr(ex ast.Expr) (string, types.Type, bool) {
 		return e.evalAddr(ex.X)
 	case *ast.Ident:
 		v, ok := e.lookup(ex.Name)
+		if ok && (v.K != KRef || v.T == nil) {
+			// a struct variable that lives in memory: its cell's address
+			if r, t, ok := e.c.addrOfVar(ex.Name); ok {
+				return r, t, true
+			}
+		}
 		if !ok || v.K != KRef || v.T == nil {
 			return "", nil, false
 		}
@@ -470,6 +476,16 @@ func (e *Env) evalAddr(ex ast.Expr) (string, types.Type, bool) {
 		}
 	}
 	return "", nil, false
+}
+
+func exprString(ex ast.Expr) string {
+	switch ex := ex.(type) {
+	case *ast.Ident:
+		return ex.Name
+	case *ast.SelectorExpr:
+		return exprString(ex.X) + "." + ex.Sel.Name
+	}
+	return "?"
 }
 
 func (e *Env) deref(x SymVal) (SymVal, error) {
@@ -1140,6 +1156,42 @@ func (e *Env) call(ex *ast.CallExpr) (SymVal, error) {
 			return mkBool(app("select", hn, a.Fs[0].S)), nil
 		}
 		return mkBool("true"), nil
+	case "gelem", "gupdate":
+		// ghost per-element state of an object: gelem(Type.field, p, i) reads a Bool ghost cell
+		// attached to element i of object p; gupdate(Type.field, p, i, v) says that exactly that
+		// cell changed (to v) since the old state.
+		sel, ok := ex.Args[0].(*ast.SelectorExpr)
+		if !ok {
+			return SymVal{}, fmt.Errorf("%s(Type.field, p, i[, v])", name)
+		}
+		comp := "$ghost:" + exprString(sel) + "[]"
+		c.g.compKT[comp] = compKT{KBool, nil}
+		ref, _, ok := e.evalAddr(ex.Args[1])
+		if !ok {
+			pv, err := arg(1)
+			if err != nil {
+				return SymVal{}, err
+			}
+			if pv.K != KRef {
+				return SymVal{}, fmt.Errorf("%s: second argument must denote an object", name)
+			}
+			ref = pv.S
+		}
+		iv, err := arg(2)
+		if err != nil {
+			return SymVal{}, err
+		}
+		cell := app("elm", ref, iv.S)
+		hn := c.comp(e.st, comp, "Bool")
+		if name == "gelem" {
+			return mkBool(app("select", hn, cell)), nil
+		}
+		vv, err := arg(3)
+		if err != nil {
+			return SymVal{}, err
+		}
+		ho := c.comp(e.old, comp, "Bool")
+		return mkBool(sEq(hn, app("store", ho, cell, vv.S))), nil
 	case "refof":
 		a, err := arg(0)
 		if err != nil {
@@ -1274,12 +1326,35 @@ func (e *Env) call(ex *ast.CallExpr) (SymVal, error) {
 		r := app("fp.to_real", app("fp.roundToIntegral", "RTZ", x.S))
 		return mkMath(app("to_int", r)), nil
 	case "freshobj":
-		// freshobj(p): p was allocated after function entry
+		// freshobj(p): p (a pointer, or the backing array of a slice) was allocated after function entry
 		x, err := arg(0)
 		if err != nil {
 			return SymVal{}, err
 		}
-		return mkBool(app(">", app("rootid", x.S), e.old.top)), nil
+		r := x.S
+		if x.K == KSlice {
+			r = x.Fs[0].S
+		}
+		return mkBool(app(">", app("rootid", r), e.old.top)), nil
+	case "storeof":
+		x, err := arg(0)
+		if err != nil {
+			return SymVal{}, err
+		}
+		if x.K != KSlice {
+			return SymVal{}, fmt.Errorf("storeof needs a slice")
+		}
+		return SymVal{K: KRef, S: x.Fs[0].S}, nil
+	case "rootof":
+		x, err := arg(0)
+		if err != nil {
+			return SymVal{}, err
+		}
+		r := x.S
+		if x.K == KSlice {
+			r = x.Fs[0].S
+		}
+		return mkMath(app("rootid", r)), nil
 	}
 	// spec functions
 	if sf, ok := c.g.cs.SpecFns[name]; ok {
